@@ -8,6 +8,12 @@ CLAIMED = {
  'C01': dict(engine='symexec', technique='bounded symbolic execution of the real Frame.add_signal and profile factories over z3 terms (uninterpreted callbacks, symbolic geometry/content); SMT decides impl != spec per pixel',
              text='For every configuration in the stated shape/option set, z3 shows that no geometry, prior content, callback, array or bounding range makes a returned pixel differ from the t*f*bandpass specification (unsat), with case-split completeness and vacuity twins; outside the shapes nothing is claimed.',
              note='exact real arithmetic (binary64 rounding outside); shapes <= 4x6; sub-sample counts <= 3; transcendental functions uninterpreted; sigma_clip stubbed', ref='DESIGN.md section 4 C01'),
+ 'C06': dict(engine='symexec', technique='bounded symbolic execution of the real Frame.add_signal over z3 terms; SMT decides additivity, confinement to the requested index range, bounded==unbounded on the range, state preservation and order-independence of two injections',
+             text='For every configuration in the stated set, z3 shows (unsat) that no prior content, signal, geometry-compatible bounding range (endpoints are free reals, forked over all clipped index pairs with a completeness query) violates data_after = data_before + returned, zero/untouched outside the range, equality with the unbounded signal inside it, unchanged axes/noise estimates/metadata/generator, and commutation of two injections.',
+             note='exact reals; bounded configurations on concrete dyadic geometries; shapes <= 4x6; float32 prior data and -0.0 outside', ref='DESIGN.md section 4 C06'),
+ 'C13': dict(engine='symexec', technique='bounded symbolic execution of the real add_constant_signal and add_signal in one run with f_start, drift_rate, level, width as free reals; forks on box indices / sub-step count with completeness query; SMT decides helper == general per pixel',
+             text='For every shape/geometry/profile/smearing combination in the stated set and EVERY real (f_start, drift, level, width) in the stated ranges, z3 shows the helper equals general injection of the linear path (with max(1, ceil(|drift|/unit)) smearing sub-steps) on the support of compact profiles and inside the FWHM track of tailed ones, and is general-or-zero elsewhere.',
+             note='concrete dyadic geometries; shapes <= 4x10; exp/sinc/wofz uninterpreted; exact reals', ref='DESIGN.md section 4 C13'),
 }
 NA = {}
 
